@@ -554,6 +554,7 @@ package core
 //@ func core.Fork.removeFilePostNodes property C04
 //@   requires self != nil
 //@   requires forall j :: 0 <= j && j < len(nodes) ==> !isnil(nodes[j])
+//@   requires @finished forall j :: 0 <= j && j < len(nodes) ==> (fn(core.Node.getState, fn(core.Nodable.getNode, nodes[j])) == "complete" || fn(core.Node.getState, fn(core.Nodable.getNode, nodes[j])) == "disabled")
 //@   requires @owned forall a string, b string :: a != b && has(self.fileArgs, a) && has(self.fileArgs, b) ==> self.fileArgs[a] != self.fileArgs[b]
 //@   requires @nonnil forall a string :: has(self.fileArgs, a) ==> self.fileArgs[a] != nil
 //@   ensures @noadd forall a string :: has(self.fileArgs, a) ==> old(has(self.fileArgs, a)) && self.fileArgs[a] == old(self.fileArgs[a])
@@ -608,6 +609,7 @@ package core
 //@   requires @owned forall a string, b string :: a != b && has(self.fileArgs, a) && has(self.fileArgs, b) ==> self.fileArgs[a] != self.fileArgs[b]
 //@   requires @nonnil forall a string :: has(self.fileArgs, a) ==> self.fileArgs[a] != nil
 //@   loop 1 invariant forall j :: 0 <= j && j < len(doneNodes) ==> !isnil(doneNodes[j])
+//@   loop 1 invariant forall j :: 0 <= j && j < len(doneNodes) ==> (fn(core.Node.getState, fn(core.Nodable.getNode, doneNodes[j])) == "complete" || fn(core.Node.getState, fn(core.Nodable.getNode, doneNodes[j])) == "disabled")
 
 // ---------------------------------------------------------------- C03 disabled calls never run: every disabling condition is consulted
 // Ghost event: dresolved[fork] counts the disable bindings Fork.disabled has resolved.
